@@ -10,6 +10,12 @@ CFG = {
         "Parsley.C13.entry_spec",
         "Parsley.C13.entry_malformed_rejected",
         "Parsley.C13.table_malformed_later_subsection_rejected",
+        "Parsley.C13.table_malformed_rejected",
+        "Parsley.C13.xrefstream_spec",
+        "Parsley.C13.table_never_panics",
+        "Parsley.C13.parseStream_never_panics",
+        "Parsley.C13.wsEolLoop_fuel_sufficient",
+        "Parsley.C13.sectLoop_fuel_sufficient",
         "Parsley.C13.rows_terminate",
         "Parsley.C13.rows_hostile_count_rejected",
         "Parsley.C13.old_loop_truncates_witness",
@@ -23,7 +29,7 @@ CFG = {
             "continuations; all 125 width triples {0..4}^3 x with/without /Index x random rows (plus truncated rows, a type byte "
             "above 2, Flate with none/Predictor 1/PNG-Up at two compression levels); 44 single-field corruptions of the stream "
             "dictionary; n random legal tables (1-4 subsections, random starts up to 2^63-1000, leading zeros, blanks, header EOLs, "
-            "0-5 entries, 3 terminators) each with 2 (quick) or all 16 (thorough) single-field corruptions of one entry, one "
+            "0-5 entries, 3 terminators) each with 2 (quick) or all 18 (thorough) single-field corruptions of one entry, one "
             "random byte alteration, one truncation and one shifted start; header oddities; one large table and stream. "
             "non-trivial = described table with >= 2 subsections or a corruption; stream case with >= 4 content bytes or a "
             "non-standard dictionary",
